@@ -70,7 +70,7 @@ ASSUMPTIONS = [
     "REAL defaults are the Python float of the decimal text (no rounding to binary32 demanded)",
     "StorageLocation / Factor / Unit / Description are compared too (read verbatim by the importer)",
 ]
-BUDGET = {"quick": 40, "thorough": 330}
+BUDGET = {"quick": 35, "thorough": 240}
 
 _FEATURES_NT = ("slimit", "odd", "rel", "compact", "record")
 _feature_counts = Counter()
@@ -164,7 +164,12 @@ class _Cmp:
             spec = v[key]
             exp = None if spec is None else spec["v"]
             g = getattr(got, attr)
-            ok = (g is None) if exp is None else (isinstance(g, int) and not isinstance(g, bool) and g == exp)
+            if exp is None:
+                ok = g is None
+            elif dt in rc.REALS:
+                ok = isinstance(g, float) and g == float(exp)
+            else:
+                ok = isinstance(g, int) and not isinstance(g, bool) and g == exp
             if not ok:
                 neg = "negative" if exp is not None and exp < 0 else "plain"
                 self.bad(f"limit/{attr}/{neg}", f"{where}: {attr} {g!r} want {exp!r} ({rc.NAMES[dt]})")
@@ -479,12 +484,52 @@ def cases(draw):
             "family": "hyp"}
 
 
+def _violation_in(exc):
+    """The harness Violation inside a Hypothesis Flaky/ExceptionGroup wrapper, if any."""
+    from harness.core import Violation
+    if isinstance(exc, Violation):
+        return exc
+    for sub in getattr(exc, "exceptions", ()) or ():
+        v = _violation_in(sub)
+        if v is not None:
+            return v
+    for sub in (exc.__cause__, exc.__context__):
+        if sub is not None and sub is not exc:
+            v = _violation_in(sub)
+            if v is not None:
+                return v
+    return None
+
+
+def hyp_chunks(ctx, strategy, total, chunk):
+    """Hypothesis part in chunks (own seed each).  The time budget is looked at between
+    chunks only: core's in-test budget check would otherwise (a) keep generating all
+    remaining examples after the budget ran out and (b) turn a genuine failure into a
+    'flaky' harness error when the budget runs out while Hypothesis is shrinking it."""
+    salt = 0
+    while total > 0 and not ctx.over_budget():
+        n = min(chunk, total)
+        saved, ctx.budget_s = ctx.budget_s, None
+        try:
+            ctx.hypothesis(strategy, n, salt=salt)
+        except BaseException as e:                     # noqa: BLE001
+            v = _violation_in(e)
+            if v is not None and v is not e:
+                raise v from None
+            raise
+        finally:
+            ctx.budget_s = saved
+        total -= n
+        salt += 1
+
+
 def search(ctx):
     ctx.enumerate(enum_cases(ctx.tier),
                   "boundary values x spellings of every integer type (defaults, parameter values, limits); "
                   "23 types x 6 access types x 4 case forms; node ids 1..127 x 5 $NODEID forms; compact "
                   "sizes 1..20,127,254; sub-indices 1..0xFE")
-    ctx.hypothesis(cases(), 12000 if ctx.tier == "thorough" else 1800)
+    total, chunk = (20000, 500) if ctx.tier == "thorough" else (1800, 300)
+    hyp_chunks(ctx, cases(), total, chunk)
     if _feature_counts and ctx.shard == 0:
         ctx.notes.append("shard 0 feature counts (cases containing the feature): " +
                          ", ".join(f"{k}={v}" for k, v in sorted(_feature_counts.items())))
